@@ -15,8 +15,8 @@ import (
 	"math/rand"
 	"os"
 	"strconv"
-	"time"
 	"strings"
+	"time"
 
 	"github.com/simimpact/srsim/pkg/engine"
 	"github.com/simimpact/srsim/pkg/engine/event"
@@ -254,7 +254,7 @@ var simKinds = []struct {
 	{model.TargetType_ENEMIES, model.TargetType_ALLIES, model.TargetType_ALLIES, 1, 1, 120, 120, 800, 0},
 	{model.TargetType_ENEMIES, model.TargetType_SELF, model.TargetType_SELF, 2, 1, 90, 90, 1200, 0},
 	{model.TargetType_ENEMIES, model.TargetType_ENEMIES, model.TargetType_ENEMIES, 0, 2, 110, 134, 600, 0},
-	{model.TargetType_ENEMIES, model.TargetType_ENEMIES, model.TargetType_ENEMIES, 1, 1, 100, 105, 900, 0}, // two ultimates (info.MultiUlt)
+	{model.TargetType_ENEMIES, model.TargetType_ENEMIES, model.TargetType_ENEMIES, 1, 1, 100, 105, 900, 0},  // two ultimates (info.MultiUlt)
 	{model.TargetType_ENEMIES, model.TargetType_ENEMIES, model.TargetType_ENEMIES, 1, 1, 100, 100, 1000, 1}, // a custom skill check on top of the skill-point cost
 	{model.TargetType_ENEMIES, model.TargetType_ENEMIES, model.TargetType_ENEMIES, 1, 1, 100, 100, 1000, 2}, // a custom skill check that never allows the skill
 }
